@@ -430,18 +430,47 @@ class Canon(object):
         """is *name_node* evaluated in *stmt* before any call / await / yield is made (so that reading an attribute chain there instead of
         just before the statement gives the same value)?  Simple statements: everything evaluated before the name must be call-free.
         `if <call-free test>: S1 ...`: the name may sit in S1 (or the first statement of the else branch)."""
+        def order(e):
+            """sub-expressions in the order in which their evaluation COMPLETES (operands before the operation that uses them)"""
+            if isinstance(e, ast.Call):
+                for x in order(e.func):
+                    yield x
+                for a_ in e.args:
+                    for x in order(a_):
+                        yield x
+                for k_ in e.keywords:
+                    for x in order(k_.value):
+                        yield x
+                yield e
+            elif isinstance(e, ast.IfExp):
+                for part in (e.test, e.body, e.orelse):
+                    for x in order(part):
+                        yield x
+                yield e
+            elif isinstance(e, ast.Dict):
+                for k_, v_ in zip(e.keys, e.values):
+                    if k_ is not None:
+                        for x in order(k_):
+                            yield x
+                    for x in order(v_):
+                        yield x
+                yield e
+            elif isinstance(e, (ast.Lambda, ast.ListComp, ast.SetComp, ast.DictComp, ast.GeneratorExp)):
+                yield e          # evaluated later / repeatedly: treated as a barrier below
+            else:
+                for ch in ast.iter_child_nodes(e):
+                    if isinstance(ch, ast.expr):
+                        for x in order(ch):
+                            yield x
+                yield e
+
         def before_ok(expr_root):
-            # evaluation order approximated by source order: every call / await that STARTS before the name ends must contain the name
-            # among its own arguments' prefix ... keep it simple: no call / await node ends before the name, and the calls that enclose the
-            # name have a call-free function expression and call-free arguments before the one holding the name
-            for n in ast.walk(expr_root):
-                if isinstance(n, (ast.Call, ast.Await, ast.Yield, ast.YieldFrom, ast.NamedExpr)) and not any(x is name_node for x in ast.walk(n)):
-                    if (n.lineno, n.col_offset) < (name_node.lineno, name_node.col_offset):
-                        return False
-                if isinstance(n, ast.Call) and any(x is name_node for x in ast.walk(n)):
-                    if not _pure(n.func) and not any(x is name_node for x in ast.walk(n.func)):
-                        return False
-            return True
+            for x in order(expr_root):
+                if x is name_node:
+                    return True
+                if isinstance(x, (ast.Call, ast.Await, ast.Yield, ast.YieldFrom, ast.NamedExpr, ast.Lambda, ast.ListComp, ast.SetComp, ast.DictComp, ast.GeneratorExp)):
+                    return False
+            return False
         if isinstance(stmt, (ast.Expr, ast.Assign, ast.AugAssign, ast.Return)):
             if isinstance(stmt, ast.AugAssign):
                 return False
